@@ -60,6 +60,7 @@ def three_site_configs(R=16):
 
 def cases(ctx):
     rng = ctx.rng
+    yield from long_cases(ctx, rng)
     # structured: three-site planar configurations under the 8 symmetries and 3 embeddings
     for (A, B, C) in three_site_configs():
         for fy in (1, -1):
@@ -124,6 +125,16 @@ def cases(ctx):
                    "dtype": rng.choice(["int32", "int64", "uint8", "intc"])}
 
 
+def long_cases(ctx, rng):
+    """strongly elongated images: one axis longer than sqrt(2**31), where squares of coordinates no longer fit a C int"""
+    for i in range(6 if ctx.tier == "quick" else 40):
+        n = rng.choice([46341, 46342, 50000, 65537, 70001])
+        emb = rng.choice(["1n", "n", "n11", "n1"])
+        k = rng.choice([1, 1, 2, 3])
+        bg = sorted(set([rng.choice([0, n - 1, rng.randrange(n)]) for _ in range(k)]))
+        yield {"kind": "longline", "n": n, "emb": emb, "bg": bg, "gv": i % 3 == 2}
+
+
 def brute(shape, fg):
     """exact squared EDT by definition; None where there is no background"""
     pos = list(itertools.product(*[range(s) for s in shape]))
@@ -156,6 +167,33 @@ def run_case(ctx, case):
                                         "background": case["pts"], "first_bad": bad[:3].tolist(),
                                         "got": [float(got[tuple(b)]) for b in bad[:3]], "want": [int(ref[tuple(b)]) for b in bad[:3]]})
         return Result(True, True, None, "three-sites/" + emb)
+    if kind == "longline":
+        n, bg = case["n"], case["bg"]
+        shape = {"1n": (1, n), "n": (n,), "n11": (n, 1, 1), "n1": (n, 1)}[case["emb"]]
+        x = np.arange(n, dtype=np.int64)
+        ref = np.min([(x - b) ** 2 for b in bg], axis=0)            # exact: below 2**33
+        if case.get("gv"):
+            from mahotas import segmentation
+            lab = np.zeros(n, np.int32)
+            for t, b in enumerate(bg):
+                lab[b] = t + 1
+            got = segmentation.gvoronoi(lab.reshape(shape)).reshape(-1)
+            d = np.array([(x - b) ** 2 for b in bg])
+            ok = d[got.astype(np.int64) - 1, x] == ref if got.min() >= 1 and got.max() <= len(bg) else np.zeros(n, bool)
+            if not np.all(ok):
+                i = int(np.nonzero(~np.asarray(ok))[0][0])
+                return Result(False, True, {"why": "gvoronoi: label is not that of a nearest labelled pixel (long line)", "at": i,
+                                            "got": int(got[i]), "labelled_at": bg, "shape": list(shape)})
+            return Result(True, True, None, "gvoronoi/longline")
+        a = np.ones(n, bool)
+        a[bg] = False
+        got = mh.distance(a.reshape(shape)).reshape(-1)
+        if got.dtype != np.float64 or not np.array_equal(got, ref.astype(np.float64)):
+            bad = np.nonzero(got != ref)[0]
+            return Result(False, True, {"why": "distance != exact squared Euclidean distance on a long line", "shape": list(shape),
+                                        "background": bg, "first_bad": int(bad[0]) if len(bad) else None,
+                                        "got": float(got[bad[0]]) if len(bad) else None, "want": int(ref[bad[0]]) if len(bad) else None})
+        return Result(True, True, None, "dist/longline/" + case["emb"])
     if kind == "dist":
         dt = case["dtype"]
         a0 = np.array(case["vals"], dtype=bool if dt == "bool" else np.dtype(dt)).reshape(case["shape"])
